@@ -299,12 +299,24 @@ class Problem:
                 if m is None:
                     raise RuntimeError("abstract-function problem solved in another process: no model object to realise the function")
                 stubs.UF_MODEL[0] = m
+                import jax.random as jr
+                real_split = jr.split
+                jr.split = stubs.model_split   # split is uninterpreted in the proof: the replay realises it from the model as well
                 try:
-                    with jax.disable_jit():
-                        pre, post = self.comp(*flat)  # eager: the real wrapper code over a table environment realising the model
+                    try:
+                        with jax.disable_jit():
+                            pre, post = self.comp(*flat)  # eager: the real wrapper code over a table environment realising the model
+                        out["mode"] = "native-eager over a lookup-table environment synthesised from the solver model"
+                    except Exception:
+                        # the code keeps the abstract calls inside traced loops: run the jaxpr of the real code primitive by primitive instead
+                        jr.split = real_split
+                        outs = concrete_eval(self.cj.jaxpr, self.cj.consts, *flat)
+                        _, otree = jax.tree_util.tree_flatten((self.pre, self.post))
+                        pre, post = jax.tree_util.tree_unflatten(otree, outs)
+                        out["mode"] = "jaxpr-of-real-code executed by JAX primitive by primitive over a lookup-table environment synthesised from the solver model"
                 finally:
                     stubs.UF_MODEL[0] = None
-                out["mode"] = "native-eager over a lookup-table environment synthesised from the solver model"
+                    jr.split = real_split
             elif not self.has_ext:
                 pre, post = self.comp(*flat)  # eager, real functions, no stubs
                 out["mode"] = "native-eager"
@@ -363,7 +375,9 @@ def concrete_eval(jaxpr, consts, *args):
         ins = [read(v) for v in e.invars]
         n = e.primitive.name
         p = e.params
-        if n != "ext" and not _eqn_has_ext(e):
+        if n == "random_split" and stubs.UF_MODEL[0] is not None:
+            outs = [jax.random.wrap_key_data(stubs.model_split(ins[0], p["shape"]))]
+        elif n != "ext" and not _eqn_has_ext(e):
             outs = e.primitive.bind(*ins, **p)  # executed natively by JAX
             if not e.primitive.multiple_results:
                 outs = [outs]
@@ -458,8 +472,10 @@ def _eqn_has_ext(e):
     for v in e.params.values():
         for s in (v if isinstance(v, (list, tuple)) else [v]):
             j = getattr(s, "jaxpr", None)
-            if j is not None and "ext" in _prims(j if hasattr(j, "eqns") else j.jaxpr):
-                return True
+            if j is not None:
+                ps = _prims(j if hasattr(j, "eqns") else j.jaxpr)
+                if "ext" in ps or (stubs.UF_MODEL[0] is not None and ("uf" in ps or "random_split" in ps)):
+                    return True
     return False
 
 
@@ -508,7 +524,7 @@ def discharge(problem, workers=1, select=None):
     if (workers <= 1 or len(hard) <= 1) and len(hard) > 40 and not problem.pre_false:
         # many small obligations: one incremental solver (push/pop) instead of re-asserting all assumptions per query;
         # anything it does not settle as unsat goes to a fresh solver
-        s = problem.solver(problem.timeout * budget_scale())
+        s = problem.solver(min(5.0, problem.timeout) * budget_scale())   # short budget: anything not settled at once goes to a fresh solver
         for i in hard:
             nm, cname, idx, term = problem.obligations[i]
             t0 = time.time()
